@@ -33,21 +33,29 @@ finally:
     run(f"git -C /repo worktree remove --force {wt}")
 ok = res["ran"].get("suite_plus_demo_without_change") == "PASS" and res["ran"].get("existing_suite_with_change") == "PASS" and res["ran"].get("demo_with_change", "").startswith("FAIL")
 res["confirmed"] = ok
-# run the checks against the change in /repo
+# run the checks against the change: a private worktree of /repo HEAD with the patch applied and a private copy of
+# /verif (so that /repo, the evidence files and the replay directory of the real tree are not disturbed); the
+# check commands, contracts, stand-ins and known findings are exactly the committed ones
 checks = {}
 if ok:
-    rc, out = run("git -C /repo status --porcelain")
-    assert out.strip() == "", "/repo not clean: " + out
-    rc, out = run(f"git -C /repo apply {os.path.abspath(os.path.join(src,'patch.diff'))}")
+    wt2 = "/tmp/scratch/seedrun_" + sid
+    vc = "/tmp/scratch/vcopy_" + sid
+    run(f"git -C /repo worktree remove --force {wt2}")
+    rc, out = run(f"git -C /repo worktree add -q --detach {wt2} HEAD")
+    assert rc == 0, out
+    run(f"rm -rf {vc}; mkdir -p {vc} && rsync -a --exclude .git --exclude .cache --exclude replay --exclude seeded /verif/ {vc}/")
+    rc, out = run(f"git apply {os.path.abspath(os.path.join(src,'patch.diff'))}", cwd=wt2)
     try:
         for p in props:
             t0 = time.time()
-            rc, out = run(f"./check {p} quick", cwd="/verif")
-            viol = [l for l in out.splitlines() if l.startswith("VIOLATION")]
+            rc, out = run(f"VERIF_REPO={wt2} VERIF_DIR={vc} {vc}/check {p} quick", cwd=vc)
+            viol = [l.replace(vc, "/verif") for l in out.splitlines() if l.startswith("VIOLATION")]
             fails = [l.strip() for l in out.splitlines() if l.strip().startswith("FAIL")]
-            checks[p] = {"exit": rc, "violations": viol[:6], "failed_obligations": fails[:8], "seconds": round(time.time() - t0, 1)}
+            details = [l.strip()[:300] for l in out.splitlines() if l.strip().startswith("replay:")]
+            checks[p] = {"exit": rc, "violations": viol[:6], "failed_obligations": fails[:8], "replays": details[:4], "seconds": round(time.time() - t0, 1)}
     finally:
-        run("git -C /repo checkout -- .")
+        run(f"git -C /repo worktree remove --force {wt2}")
+        run(f"rm -rf {vc}")
 res["checks"] = checks
 res["detected_by"] = [p for p, c in checks.items() if c["exit"] == 1]
 dst = f"/verif/seeded/{sid}"
